@@ -28,13 +28,15 @@ Reset(e) == /\ w' = Strict([i \in 1..Len(e.init) |-> NewCtx(Schs, e.init[i])])
             /\ UNCHANGED nbad
 Op(e) ==
   LET r == Apply(Schs, w, e.op)
-      good == /\ Chk(r.res = e.res, <<"result of", e.op.op, "expected", r.res, "observed", e.res>>)
+      crashed == "panic" \in DOMAIN e.after       \* projecting the real context panicked inside the engine
+      good == /\ Chk(~crashed, <<"reading the context back panicked after", e.op.op>>)
+              /\ Chk(r.res = e.res, <<"result of", e.op.op, "expected", r.res, "observed", e.res>>)
               /\ Chk(e.c <= Len(r.w) /\ SameCtx(r.w[e.c], e.after),
                      <<"state after", e.op.op, "expected", r.w[e.c], "observed", e.after>>)
               /\ Chk(TypeOK(Schs, r.w), "TypeOK")
   IN /\ nbad' = IF good THEN nbad ELSE nbad + 1
      \* after a rejected event continue from the observed state of the touched context
-     /\ w' = IF good \/ e.c > Len(r.w) \/ ~e.after.alive THEN r.w
+     /\ w' = IF good \/ crashed \/ e.c > Len(r.w) \/ ~e.after.alive THEN r.w
              ELSE [r.w EXCEPT ![e.c] = [sch |-> e.after.sch, vals |-> e.after.vals,
                                         lists |-> e.after.lists, alive |-> TRUE]]
 Next == /\ l <= Len(Rec)
